@@ -843,9 +843,16 @@ Proof.
   eapply three_way_VL; eauto using PathV_BeforeFrom, PathV_PathMC, PathV_AfterFrom, PathV_LastOK.
 Qed.
 
+Lemma prepare_slice_ok sl along st en : prepare_slice s sl along = Ok (st, en) -> prepare_slice0 s sl along = Ok (st, en).
+Proof.
+  unfold prepare_slice. destruct (prepare_slice0 s sl along) as [[a b]|]; [|discriminate]. cbn [bind].
+  destruct (negb _ || negb _); [discriminate|]. auto.
+Qed.
+
 Lemma prepare_slice_TextAt sl along st en : prepare_slice s sl along = Ok (st, en) -> TextAt st /\ TextAt en.
 Proof.
-  unfold prepare_slice. destruct (rp_node along (rp_depth along - sl_open_start sl)) as [n|]; [|discriminate]. cbn [bind].
+  intros H0. apply prepare_slice_ok in H0. revert H0.
+  unfold prepare_slice0. destruct (rp_node along (rp_depth along - sl_open_start sl)) as [n|]; [|discriminate]. cbn [bind].
   destruct (wrap_up along (rp_depth along - sl_open_start sl) (node_copy n (sl_content sl))) as [w|]; [|discriminate].
   cbn [bind]. destruct (frag_size s (node_content w) <? sl_open_end sl + (rp_depth along - sl_open_start sl)); [discriminate|].
   destruct (resolve s w (sl_open_start sl + (rp_depth along - sl_open_start sl))) as [a|] eqn:Ea; [|discriminate]. cbn [bind].
